@@ -4,9 +4,8 @@ sys.path.insert(0, '/verif')
 from pyvc.unit import run_unit_symbolic
 mod = importlib.import_module(sys.argv[1])
 names = sys.argv[2:]
-for U in mod.UNITS:
-    if names and U.__name__ not in names:
-        continue
+units = [getattr(mod, n) for n in names] if names else mod.UNITS
+for U in units:
     u = U()
     for mode in u.modes:
         t = time.time()
